@@ -126,6 +126,11 @@ func (s *vStoreSys) Enabled() []vOp {
 		for _, id := range ids {
 			ops = append(ops, vOp{K: "Remove", A: id})
 		}
+		// a write that the store must refuse (vector of the wrong dimension), aimed at an id
+		// that holds an acknowledged document: it fails and changes nothing
+		for _, id := range ids {
+			ops = append(ops, vOp{K: "BadAdd", A: id})
+		}
 		// update = remove + add: an acknowledged re-add of a removed id must be visible again
 		rids := []int{}
 		for id := range s.removed {
@@ -334,6 +339,14 @@ func (s *vStoreSys) Apply(op vOp, hist []vOp, check bool) {
 				s.ever[id] = true
 				delete(s.removed, id)
 			}
+		}
+	case "BadAdd":
+		var err error
+		s.env.do(func() {
+			err = s.st.AddWithID(uint32(op.A), []float32{1, 0, 0}, "refused", map[string]interface{}{"s": "x"})
+		})
+		if s.env.dead == "" && err == nil && check {
+			s.c.Violation("invalid-add-accepted", "", s.cfgS, h(), fmt.Sprintf("AddWithID(%d, vector of dimension 3) returned nil", op.A))
 		}
 	case "Remove":
 		var err error
